@@ -1,5 +1,6 @@
 """C06 - removing a removable knot is exact and inverts insertion (E1 + E2)."""
 import copy
+import math
 import itertools
 import time
 from fractions import Fraction as F
@@ -242,6 +243,23 @@ def _insert_remove(case, ctx):
                         ctx.close('C06.roundtrip.control_points_restored', _net(obj), net0, TOL, S.max_abs(model0), rc, feats)
                     else:
                         _same_geometry(ctx, 'C06.remove.geometry', obj, model0, rc, feats)
+            # the inserted knot named by a float one ulp away from the stored one (0.3 asked for as 0.1 + 0.2): the library
+            # identifies knots within its tolerance of 1e-7, so this is the same removable knot
+            if s == 0 and 'k' not in case and 'via' not in case and not case.get('no_near'):
+                for near, u2 in (('above', math.nextafter(u, math.inf)), ('below', math.nextafter(u, -math.inf))):
+                    feats = dict(pdim=pd, rational=desc['rational'], degree=p, direction=NM[a], inserted=r, removed=r,
+                                 near_knot=near, family='near_knot')
+                    rc = dict(case, params=[u], r=r)
+                    obj = copy.deepcopy(base)
+                    prm2, num2 = _args(pd, a, u2, r)
+                    try:
+                        operations.remove_knot(obj, prm2, num2)
+                    except Exception as e:
+                        ctx.check('C06.near_knot.no_exception', False, rc, feats, 'removal of an inserted knot succeeds', repr(e))
+                        continue
+                    ok = list(_dirs(obj)[a]) == list(kv) and _sizes(obj) == _sizes(S.build(desc, ctx.seed))
+                    if ctx.check('C06.near_knot.reduced', ok, rc, feats, [list(kv)], [list(_dirs(obj)[a]), _sizes(obj)]):
+                        ctx.close('C06.near_knot.control_points_restored', _net(obj), net0, TOL, S.max_abs(model0), rc, feats)
 
 
 def _refine_remove(case, ctx):
